@@ -92,7 +92,7 @@ class TaskOracle:
     def key_of(payload):
         if isinstance(payload, dict) and "k" in payload:
             payload = payload["k"]
-        if isinstance(payload, (dict, list)):
+        if isinstance(payload, (dict, list)) or payload is ANY:
             return None
         return json.dumps(payload)
 
@@ -361,7 +361,15 @@ class Interp:
     def run_task(self, name, state, raw, t, ctx):
         inp = self.read_path(state.get("InputPath", "$"), raw, ctx, t=t)
         params = self.template(state["Parameters"], inp, ctx, t) if state.get("Parameters") is not None else inp
-        fn = self.fn_of_resource(state["Resource"])
+        long_form = state["Resource"].endswith(":rpcmessage:invoke")
+        if long_form:
+            # "arn:aws:states:<region>::rpcmessage:invoke": Parameters = {FunctionName, Payload}; the result is wrapped in invocation metadata
+            if not isinstance(params, dict) or not params.get("FunctionName"):
+                raise Unspec("long-form invoke without FunctionName")
+            fn = self.fn_of_resource(params["FunctionName"])
+            params = params.get("Payload", {})
+        else:
+            fn = self.fn_of_resource(state["Resource"])
         o = self.oracle.outcome(fn, params)
         self.requests.append({"fn": fn, "payload": copy.deepcopy(params), "t": t, "state": name})
         delay = o.get("delay", 0)
@@ -384,6 +392,8 @@ class Interp:
         value = self.oracle.value_of(o, params)
         if isinstance(value, dict) and (value.get("Error") or value.get("errorType")):
             raise Unspec("success value using the reply protocol's error members")
+        if long_form:
+            value = {"ExecutedVersion": "$LATEST", "Payload": value, "SdkResponseMetadata": {"RequestId": ANY}, "StatusCode": 200}
         if state.get("ResultSelector") is not None:
             value = self.template(state["ResultSelector"], value, ctx, t_done)
         out = self.output_path(state, self.result_path(state, raw, value, t_done), ctx, t_done)
